@@ -128,17 +128,21 @@ def bd_cases(draw, max_n):
         small = pool[:n + 6]
         ns = draw(st.lists(st.one_of(st.sampled_from(small), st.sampled_from(pool)), min_size=k, max_size=k, unique=True))
     return {"seed": draw(SEED), "n": n, "birth": birth, "death": death, "ns": ns, "via_global": draw(st.booleans()),
-            "flags": draw(BD_FLAGS)}
+            "flags": draw(BD_FLAGS),
+            # an earlier call on the SAME namespace object (only used when the namespace is large enough not to grow)
+            "prior": draw(st.one_of(st.none(), st.fixed_dictionaries({"seed": SEED, "n": ints(2, 12)})))}
 
 
 @st.composite
 def pb_cases(draw, max_n):
-    return {"seed": draw(SEED), "n": draw(tips(max_n)), "birth": draw(BIRTH), "via_global": draw(st.booleans())}
+    return {"seed": draw(SEED), "n": draw(tips(max_n)), "birth": draw(BIRTH), "via_global": draw(st.booleans()),
+            "prior": draw(st.one_of(st.none(), st.fixed_dictionaries({"seed": SEED, "value": BIRTH})))}
 
 
 @st.composite
 def kingman_cases(draw, max_n):
-    return {"seed": draw(SEED), "n": draw(tips(max_n)), "pop": draw(POP), "via_global": draw(st.booleans())}
+    return {"seed": draw(SEED), "n": draw(tips(max_n)), "pop": draw(POP), "via_global": draw(st.booleans()),
+            "prior": draw(st.one_of(st.none(), st.fixed_dictionaries({"seed": SEED, "value": POP})))}
 
 
 @st.composite
@@ -189,7 +193,14 @@ def contained_cases(draw, max_species):
             "scalar_genes": draw(st.booleans()), "via_global": draw(st.booleans()),
             # default: "<species> <k>"; the others go through the documented contained_taxon_label_fn /
             # contained_taxon_label_prefix arguments and give the gene copies of one species (or all genes) ONE label
-            "gene_labels": draw(st.sampled_from(["default", "default", "species", "species", "constant", "prefix"]))}
+            "gene_labels": draw(st.sampled_from(["default", "default", "species", "species", "constant", "prefix"])),
+            # name of the edge attribute holding the sizes in "pops" / value passed as edge_pop_size_attr (None: documented
+            # as "population sizes default to default_pop_size")
+            "edge_attr": draw(st.sampled_from(["pop_size", "pop_size", "pop_size", "ne", None])),
+            # history: an earlier gene tree simulated on the SAME containing tree and mapping under other settings
+            "prior": draw(st.one_of(st.none(), st.fixed_dictionaries({
+                "seed": SEED, "default_pop": st.sampled_from([0.02, 0.1, 1, 3, 50, 400]),
+                "edge_attr": st.sampled_from(["pop_size", "pop_size", "ne", None])})))}
 
 
 @st.composite
@@ -211,7 +222,12 @@ def constrained_cases(draw, max_species):
     else:
         pops = draw(st.lists(EDGE_POP, min_size=nn, max_size=nn))
     return {"seed": draw(SEED), "sp": spec, "strategy": strategy, "num_genes": num_genes, "leaf_genes": leaf_genes,
-            "pops": pops, "decorate": draw(st.booleans()), "via_global": draw(st.booleans())}
+            "pops": pops, "decorate": draw(st.booleans()), "via_global": draw(st.booleans()),
+            "edge_attr": draw(st.sampled_from(["pop_size", "pop_size", "ne"])),
+            # history (used when decorate_original_tree is off): an earlier call on the SAME population tree
+            "prior": draw(st.one_of(st.none(), st.fixed_dictionaries({
+                "seed": SEED, "strategy": st.sampled_from(["random_uniform", "fixed_per_population"]), "num_genes": ints(1, 6),
+                "edge_attr": st.sampled_from(["pop_size", "ne"])})))}
 
 
 # ---------------------------------------------------------------------------
@@ -294,6 +310,79 @@ def examine(ctx, sim, tree, n_expected, one_leaf_per_taxon, expect_taxa=True, di
     if len(leaves) >= (3 if sim in ("birth_death_tree", "fast_birth_death_tree") else 2):
         ctx.check(hi > 0, "lengths", K("zero_height", sim), "all root-to-tip distances are 0")
     return Seen(rt, depth, hi, rt.canon(ordered=True, lengths=True))
+
+
+PLAIN = (bool, int, float, str, type(None))
+
+
+def obj_state(o):
+    """Attribute names of o; values only for public (no leading underscore) attributes holding plain data, plus the
+    label.  Private attributes are the library's own bookkeeping (lazily filled caches such as _lower_cased_label,
+    accession counters) and only their presence is recorded."""
+    out = {}
+    for k, v in (getattr(o, "__dict__", None) or {}).items():
+        if (not k.startswith("_") or k == "_label") and isinstance(v, PLAIN):
+            out[k] = repr(v)
+        else:
+            out[k] = "<%s>" % ("private" if k.startswith("_") else type(v).__name__)
+    return out
+
+
+def namespace_state(ns):
+    if ns is None:
+        return None
+    taxa = list(ns)
+    return {"members": [id(t) for t in taxa], "taxa": [obj_state(t) for t in taxa], "self": obj_state(ns), "_keep": taxa}
+
+
+def tree_state(tree):
+    """Raw-link walk: per node identity of parent / children / taxon / edge, attribute names and plain values of node and
+    edge (edge.length included), plus the tree object's own attributes and its namespace."""
+    nodes = []
+    stack = [tree._seed_node]
+    while stack:
+        nd = stack.pop()
+        nodes.append({"id": id(nd), "parent": id(nd._parent_node), "children": [id(c) for c in nd._child_nodes],
+                      "taxon": id(nd.taxon), "edge": id(nd._edge), "node_attrs": obj_state(nd), "edge_attrs": obj_state(nd._edge),
+                      "length": repr(nd._edge.length)})
+        stack.extend(reversed(nd._child_nodes))
+    return {"nodes": nodes, "self": obj_state(tree), "namespace": namespace_state(tree.taxon_namespace)}
+
+
+def state_diff(a, b, path="", allowed_new=()):
+    """Human-readable differences between two states (dict / list / str trees); new keys named in allowed_new are
+    documented side effects."""
+    out = []
+    if isinstance(a, dict) and isinstance(b, dict):
+        for k in sorted(set(a) | set(b), key=str):
+            if k == "_keep":
+                continue
+            if k not in a:
+                if k not in allowed_new:
+                    out.append("%s: new attribute %r = %s" % (path, k, b[k]))
+            elif k not in b:
+                out.append("%s: attribute %r removed" % (path, k))
+            else:
+                out.extend(state_diff(a[k], b[k], "%s.%s" % (path, k), allowed_new))
+    elif isinstance(a, list) and isinstance(b, list) and a and isinstance(a[0], dict) and len(a) == len(b):
+        for i, (x, y) in enumerate(zip(a, b)):
+            out.extend(state_diff(x, y, "%s[%d]" % (path, i), allowed_new))
+    elif a != b:
+        out.append("%s: %s -> %s" % (path, str(a)[:60], str(b)[:60]))
+    return out
+
+
+def check_unchanged(ctx, sim, what, before, after, allowed_new=()):
+    d = state_diff(before, after, what, allowed_new)
+    ctx.check(not d, "inputs_unchanged", K("input_changed", sim),
+              lambda: "%d change(s) to an argument object without a documented side effect: %s" % (len(d), "; ".join(d[:4])))
+
+
+def check_reused(ctx, sim, what, seen_fresh, r_fresh, seen_reused, r_reused):
+    ctx.check(seen_reused.canon == seen_fresh.canon and r_reused.getstate() == r_fresh.getstate(), "inputs_unchanged",
+              K("reused_input_differs", sim),
+              lambda: "the same call from an equal generator state on %s that was used before differs from the call on "
+                      "freshly built equal ones; %s" % (what, first_diff(seen_fresh.canon, seen_reused.canon)))
 
 
 def first_diff(a, b):
@@ -430,12 +519,25 @@ def bd_case(ctx, case, sim):
                 kw.pop(name, None)
         if rng is not None:
             kw["rng"] = rng
-        ns = None
-        if case["ns"] is not None:
+        ns = kw.pop("_ns", None)
+        n_tips = kw.pop("_n", None)
+        if n_tips is not None:
+            kw["num_extant_tips"] = n_tips
+        if ns is None and case["ns"] is not None:
             ns = make_namespace(case["ns"])
+        if ns is not None:
             kw["taxon_namespace"] = ns
+        before = list(ns) if ns is not None else None
+        st0 = namespace_state(ns)
         tree = fn(case["birth"], case["death"], **kw)
-        given[id(tree)] = (ns, list(ns) if ns is not None else None)
+        if ns is not None:
+            # documented side effect: new taxa are appended when more are needed; the members that were there keep
+            # their attributes, and so does the namespace object
+            st1 = namespace_state(ns)
+            k0 = len(st0["members"])
+            check_unchanged(ctx, sim, "taxon_namespace", {"taxa": st0["taxa"], "self": st0["self"]},
+                            {"taxa": st1["taxa"][:k0], "self": st1["self"]})
+        given[id(tree)] = (ns, before)
         return tree
 
     def inspect(tree):
@@ -481,6 +583,18 @@ def bd_case(ctx, case, sim):
         ctx.check(seen3.canon == seen1.canon and r3.getstate() == r1.getstate(), "deterministic",
                   K("repeat_until_success_changes_result", sim),
                   lambda: "no extinction happened, yet repeat_until_success=False gives another tree; %s" % first_diff(seen1.canon, seen3.canon))
+    prior = case.get("prior")
+    if prior and expect_taxa and case["ns"] is not None and len(case["ns"]) >= max(n, 2):
+        # the namespace is large enough not to grow: a call on a namespace object that served an earlier call must give
+        # what the call on a fresh equal namespace gives
+        ctx.cls("%s:reused namespace object" % sim)
+        shared = make_namespace(case["ns"])
+        r5 = random.Random(prior["seed"])
+        t5 = guarded(ctx, sim, lambda: ctx.call(K("raises", sim), simulate, r5, _ns=shared, _n=min(prior["n"], len(case["ns"]))))
+        examine(ctx, sim, t5, min(prior["n"], len(case["ns"])), one_leaf_per_taxon=False)
+        r6 = random.Random(seed)
+        t6 = guarded(ctx, sim, lambda: ctx.call(K("raises", sim), simulate, r6, _ns=shared))
+        check_reused(ctx, sim, "a taxon namespace", seen1, r1, inspect(t6), r6)
     if flags:
         for name in sorted(flags):
             ctx.cls("%s:flag %s=%r" % (sim, name, flags[name]))
@@ -528,13 +642,19 @@ def ns_case(ctx, case, sim):
         fn = getattr(treesim, sim)
         args = {"pop_size": case["pop"]}
 
-    def simulate(rng):
-        ns = make_namespace(["T%d" % i for i in range(n)])
+    def simulate(rng, ns=None, value=None):
+        if ns is None:
+            ns = make_namespace(["T%d" % i for i in range(n)])
         kw = dict(args)
+        if value is not None:
+            kw[list(args)[0]] = value
         if rng is not None:
             kw["rng"] = rng
+        before = list(ns)
+        st0 = namespace_state(ns)
         tree = fn(ns, **kw)
-        given[id(tree)] = (ns, list(ns))
+        check_unchanged(ctx, sim, "taxon_namespace", st0, namespace_state(ns))
+        given[id(tree)] = (ns, before)
         return tree
 
     def inspect(tree):
@@ -558,7 +678,17 @@ def ns_case(ctx, case, sim):
                       lambda: "node ages %r, expected cumulated pop_size/C(k,2) %r" % (ages[:6], want[:6]))
         return seen
 
-    run_twice(ctx, sim, case, simulate, inspect)
+    seen1, r1 = run_twice(ctx, sim, case, simulate, inspect)
+    prior = case.get("prior")
+    if prior:
+        ctx.cls("%s:reused namespace object" % sim)
+        shared = make_namespace(["T%d" % i for i in range(n)])
+        r5 = random.Random(prior["seed"])
+        t5 = guarded(ctx, sim, lambda: ctx.call(K("raises", sim), simulate, r5, ns=shared, value=prior["value"]))
+        examine(ctx, sim, t5, n, one_leaf_per_taxon=True)
+        r6 = random.Random(seed)
+        t6 = guarded(ctx, sim, lambda: ctx.call(K("raises", sim), simulate, r6, ns=shared))
+        check_reused(ctx, sim, "a taxon namespace", seen1, r1, inspect(t6), r6)
     ctx.cls("%s:tips %s" % (sim, size_class(n)))
     if n >= 3:
         ctx.nontrivial([sim, case])
@@ -617,7 +747,7 @@ def build_species_tree(case):
     while stack:
         s, nd = stack.pop()
         if pops[k] is not None:
-            nd._edge.pop_size = pops[k]
+            setattr(nd._edge, case.get("edge_attr") or "pop_size", pops[k])
         k += 1
         if len(s["ch"]) != len(nd._child_nodes):
             raise runner.HarnessError("species tree builder mismatch")
@@ -702,7 +832,9 @@ def sc_contained_coalescent(ctx, case):
     expected_labels = ["%s %d" % (species_label(i), j + 1) for i in range(sp.n) for j in range(genes[i])]
     given = {}
 
-    def simulate(rng):
+    NOT_GIVEN = object()
+
+    def build():
         sptree, n = build_species_tree(case)
         mkw = {}
         if mode == "species":
@@ -717,12 +849,29 @@ def sc_contained_coalescent(ctx, case):
         gene_ns = list(mapping.domain_taxon_namespace)
         if len(gene_ns) != total or [mapping.forward[g].label for g in gene_ns] != [species_label(i) for i in owner]:
             raise runner.HarnessError("gene namespace is not laid out species by species")
+        return sptree, mapping, gene_ns
+
+    def mapping_state(mapping):
+        return {"forward": sorted((id(k), id(v)) for k, v in mapping.forward.items()),
+                "reverse": sorted((id(k), tuple(sorted(id(x) for x in v))) for k, v in mapping.reverse.items()),
+                "domain": namespace_state(mapping.domain_taxon_namespace), "self": obj_state(mapping)}
+
+    def simulate(rng, args=None, default_pop=NOT_GIVEN, edge_attr=NOT_GIVEN):
+        sptree, mapping, gene_ns = args if args is not None else build()
+        default_pop = case["default_pop"] if default_pop is NOT_GIVEN else default_pop
+        edge_attr = case.get("edge_attr", "pop_size") if edge_attr is NOT_GIVEN else edge_attr
         kw = {}
         if rng is not None:
             kw["rng"] = rng
-        if case["default_pop"] != 1:
-            kw["default_pop_size"] = case["default_pop"]
+        if default_pop != 1:
+            kw["default_pop_size"] = default_pop
+        if edge_attr != "pop_size":
+            kw["edge_pop_size_attr"] = edge_attr
+        st0 = (tree_state(sptree), mapping_state(mapping))
         tree = treesim.contained_coalescent_tree(sptree, mapping, **kw)
+        # no side effect on the containing tree or the mapping is documented
+        check_unchanged(ctx, sim, "containing_tree", st0[0], tree_state(sptree))
+        check_unchanged(ctx, sim, "gene_to_containing_taxon_map", st0[1], mapping_state(mapping))
         given[id(tree)] = (mapping, sptree, dict((id(t), k) for k, t in enumerate(gene_ns)), gene_ns)
         return tree
 
@@ -740,7 +889,25 @@ def sc_contained_coalescent(ctx, case):
         seen.multi, seen.unsorted = multi, uns
         return seen
 
-    seen1, _ = run_twice(ctx, sim, case, simulate, inspect)
+    seen1, r1 = run_twice(ctx, sim, case, simulate, inspect)
+    prior = case.get("prior")
+    if prior:
+        # history on ONE containing tree + mapping: a gene tree under other population-size settings first, then the
+        # call of this case; judged against the call on freshly built equal arguments (run 1)
+        shared = build()
+        r5 = random.Random(prior["seed"])
+        t5 = guarded(ctx, sim, lambda: ctx.call(K("raises", sim), simulate, r5, args=shared,
+                                               default_pop=prior["default_pop"], edge_attr=prior["edge_attr"]))
+        inspect(t5)
+        r6 = random.Random(case["seed"])
+        t6 = guarded(ctx, sim, lambda: ctx.call(K("raises", sim), simulate, r6, args=shared))
+        check_reused(ctx, sim, "a containing tree and mapping", seen1, r1, inspect(t6), r6)
+        ctx.cls("%s:reused containing tree (earlier call with %s default_pop_size, %s size attribute)" % (
+            sim, "another" if prior["default_pop"] != case["default_pop"] else "the same",
+            "another" if prior["edge_attr"] != case.get("edge_attr", "pop_size") else "the same"))
+    missing = sum(1 for x in case["pops"] if x is None)
+    ctx.cls("%s:edge sizes %s" % (sim, "edge_pop_size_attr=None" if case.get("edge_attr", "pop_size") is None else
+                                  "on every edge" if not missing else "on no edge" if missing == len(case["pops"]) else "on some edges"))
     ctx.cls("%s:gene labels %s" % (sim, {"default": "unique", "prefix": "unique (prefix argument)", "species": "shared within a species",
                                         "constant": "one label for all genes"}[mode]))
     coalescent_classes(ctx, sim, case, seen1, total)
@@ -774,15 +941,8 @@ def sc_constrained_kingman(ctx, case):
         per_species = list(case["leaf_genes"])
         total = sum(per_species)
 
-    def simulate(rng):
+    def build():
         sptree, n = build_species_tree(case)
-        kw = {"gene_sampling_strategy": strategy}
-        if rng is not None:
-            kw["rng"] = rng
-        if case["num_genes"] is not None:
-            kw["num_genes"] = case["num_genes"]
-        if case["decorate"]:
-            kw["decorate_original_tree"] = True
         if strategy == "node_attribute":
             # leaves of the species tree found through raw links; leaf with taxon index i gets leaf_genes[i]
             stack = [sptree._seed_node]
@@ -791,7 +951,29 @@ def sc_constrained_kingman(ctx, case):
                 if not nd._child_nodes:
                     nd.num_genes = case["leaf_genes"][int(nd.taxon.label[1:])]
                 stack.extend(nd._child_nodes)
+        return sptree
+
+    def simulate(rng, sptree=None, other=None):
+        if sptree is None:
+            sptree = build()
+        o = other or {}
+        kw = {"gene_sampling_strategy": o.get("strategy", strategy)}
+        if rng is not None:
+            kw["rng"] = rng
+        num_genes = o["num_genes"] if other else case["num_genes"]
+        if num_genes is not None:
+            kw["num_genes"] = num_genes
+        edge_attr = o.get("edge_attr", case.get("edge_attr", "pop_size"))
+        if edge_attr != "pop_size":
+            kw["pop_size_attr"] = edge_attr
+        if case["decorate"] and not other:
+            kw["decorate_original_tree"] = True
+        st0 = tree_state(sptree)
         res = treesim.constrained_kingman_tree(sptree, **kw)
+        # documented: with decorate_original_tree the uncoalesced gene nodes are attached to the nodes of the input tree
+        # as 'gene_nodes'; otherwise they go to a copy.  Nothing else about the input tree may change.
+        check_unchanged(ctx, sim, "pop_tree", st0, tree_state(sptree),
+                        allowed_new=("gene_nodes",) if kw.get("decorate_original_tree") else ())
         return res
 
     def inspect(res):
@@ -808,7 +990,19 @@ def sc_constrained_kingman(ctx, case):
         seen.multi, seen.unsorted = multi, uns
         return seen
 
-    seen1, _ = run_twice(ctx, sim, case, simulate, inspect)
+    seen1, r1 = run_twice(ctx, sim, case, simulate, inspect)
+    prior = case.get("prior")
+    if prior and not case["decorate"]:
+        ctx.cls("%s:reused population tree" % sim)
+        shared = build()
+        r5 = random.Random(prior["seed"])
+        res5 = guarded(ctx, sim, lambda: ctx.call(K("raises", sim), simulate, r5, sptree=shared, other=prior))
+        ctx.check(isinstance(res5, tuple) and len(res5) == 2, "returns_tree", K("returns_pair", sim), repr(res5)[:200])
+        examine(ctx, sim, res5[0], prior["num_genes"] * (sp.n if prior["strategy"] == "fixed_per_population" else 1),
+                one_leaf_per_taxon=True)
+        r6 = random.Random(case["seed"])
+        res6 = guarded(ctx, sim, lambda: ctx.call(K("raises", sim), simulate, r6, sptree=shared))
+        check_reused(ctx, sim, "a population tree", seen1, r1, inspect(res6), r6)
     ctx.cls("%s:strategy %s%s" % (sim, strategy, " decorate_original_tree" if case["decorate"] else ""))
     coalescent_classes(ctx, sim, case, seen1, total)
 
